@@ -285,6 +285,33 @@ def run_polars(rep, cases):
             rep.property_failure(c, "polars: the returned object is not the whole input")
         if k1 != kkept:
             rep.correspondence_break(c, f"polars: model of the code's selection gives {kkept}, implementation {k1}")
+        # the stand-alone polars Column entry: same options, same rows
+        for spec in S["columns"]:
+            if spec.get("regex") is not None or spec["name"] not in df.columns:
+                continue
+
+            def cverdict(frame, **kw2):
+                with warnings.catch_warnings():
+                    warnings.simplefilter("ignore")
+                    try:
+                        PA.column_of(dict(spec, coerce=False, default=None))[1].validate(frame, lazy=True, **kw2)
+                        return "ok"
+                    except (pap.errors.SchemaErrors, pap.errors.SchemaError):
+                        return "errors"
+                    except Exception as e:  # noqa: BLE001
+                        return "crash:" + type(e).__name__
+            c1 = cverdict(df, **kw)
+            creq = cverdict(df[a["requested"]] if a["requested"] else df.head(0))
+            if c1.startswith("crash") or creq.startswith("crash"):
+                rep.count("polars-column:" + c1)
+                continue
+            rep.evaluations += 1
+            rep.count(f"polars-column:{c1}")
+            if c1 != creq:
+                rep.property_failure(
+                    dict(c, entry="polars-Column", column=spec["name"]),
+                    f"polars Column {spec['name']!r}: verdict with options is {c1}, verdict on the requested rows is {creq}",
+                    region="K_C20_duplicateRows" if (not distinct and sorted(a["kept"]) != sorted(a["requested"])) else None)
 
 
 def run(tier, replay=None):
